@@ -81,6 +81,9 @@ pub fn run(n: usize, rng: &mut Rng, rep: &mut Report) {
         let k = rng.range(2, 4);
         let mut s = String::from("p");
         for _ in 0..k { s.push_str(*rng.pick(&["\\\\", "&amp;", "&#38;", "\\&", "&#92;", "lt;", "#35;", "amp;", "*", "\\*", "&quot;", "q", "&#x5c;", ";"])); }
+        // two bare `*` would pair into emphasis in paragraph text (markup, not a reference): keep at most one
+        let bare_stars = |s: &str| { let b = s.as_bytes(); let (mut i, mut k) = (0, 0); while i < b.len() { if b[i] == b'\\' && i + 1 < b.len() && b[i + 1].is_ascii_punctuation() { i += 2; continue; } if b[i] == b'*' { k += 1; } i += 1; } k };
+        if bare_stars(&s) > 1 { continue; }
         s.push('z');
         refs.push(s);
     }
